@@ -1,6 +1,6 @@
 """C12 - HTML, JSON, Markdown and text outputs all render and carry the same data.
 
-Exhaustive: every set of <= K transactions over a 19-transaction alphabet (merchant names that differ only in
+Exhaustive: every set of <= K transactions over a 22-transaction alphabet (merchant names that differ only in
 quotes, spaces or underscores; descriptions containing </script>, quotes, backslashes, the template
 placeholders, braces, non-ASCII; refunds, income with negative amount, transfers in/out, investment, a merchant
 netting to zero; extra fields) x {no views, views} is analysed by the real analyze_transactions and rendered by
@@ -27,7 +27,7 @@ from mc.ref import money
 
 PROPERTY = "C12"
 LEVEL = "exploration"
-RULE = ("cases = every subset of 1..K transactions (K=3 quick, 4 thorough) of a 19-transaction alphabet x {without views, with two views}; each case "
+RULE = ("cases = every subset of 1..K transactions (K=3 quick, 4 thorough) of a 22-transaction alphabet x {without views, with two views}; each case "
         "renders 11 outputs (2 HTML modes, JSON x3, Markdown x3 verbosities, text summary, views summary, plus the separate data file). "
         "non-trivial = subsets with >=2 merchants whose derived ids collide, or with a description containing markup / placeholder text, or mixing "
         ">=2 money buckets; subsets are distinct by construction")
@@ -60,6 +60,11 @@ ALPHA = [
     # transactions carrying two special tags (precedence income > investment > transfer must be the same everywhere)
     ("Dual", "income+investment", -40.0, ["income", "investment"], D(2025, 1, 22), ("Finance", "Dual"), None),
     ("Dual2", "investment+transfer", 60.0, ["Transfer", "Investment"], D(2025, 2, 22), ("Finance", "Dual"), None),
+    # closing script tags in other letter cases / with blanks, and an HTML comment opener
+    ("Shop", "WEB </SCRIPT> x </Script > <!-- y", 7.25, ["</ScRiPt>"], D(2025, 1, 23), FOOD, {"k": "</SCRIPT\n>"}),
+    # one merchant spanning two categories whose own total is negative while one of its categories is positive
+    ("Span", "prime charge", 40.0, [], D(2025, 1, 24), FOOD, None),
+    ("Span", "big refund", -100.0, [], D(2025, 2, 24), BILLS, None),
 ]
 VIEWS = "[All]\nfilter: true\n\n[Food Only]\ndescription: food & \"drink\" </script>\nfilter: category == \"Food\"\n"
 
